@@ -701,6 +701,24 @@ def concrete_failure(prop, m):
     if prop == 'C19' and m.get('kind') == 'events' and op.startswith('export'):
         # a stored record that does not decode to the value it was written from (the export lists every record)
         return True
+    if prop == 'C06' and m.get('kind') == 'state' and (op.startswith('end') or op.startswith('begin')):
+        # at a settlement the model adds exactly the bytes the session reported, capped at the grant (Props/C06All
+        # used_grows_only_at_settlement_reachable): an allocation whose used bytes end up higher on the implementation
+        # grew by more than was reported, or without a settlement of that holder
+        def used(ls):
+            out = {}
+            for x in ls or []:
+                t = x.split()
+                if len(t) > 4 and x.startswith('+S vpn subscription 20'):
+                    f = dict(y.split('=', 1) for y in t[4:] if '=' in y)
+                    try:
+                        out[t[3]] = int(f.get('used', '0'))
+                    except ValueError:
+                        pass
+            return out
+        a, b = used(m.get('only_impl')), used(m.get('only_model'))
+        if any(k in b and a[k] > b[k] for k in a):
+            return True
     if prop == 'C18' and m.get('kind') == 'state':
         # settlement books a session's bytes on the allocation of the subscription the session was started on
         # (Props/C18 session_settled_against_its_own_subscription; allocations and payouts carry their subscription's
